@@ -151,8 +151,11 @@ def check_row(rep, ctx, rule, key, anchor_body, ctx_adt, variants, request_local
     # request_locals: parameter indices, or a list of groups of indices: the refusal must depend on every group
     groups = request_locals if request_locals and isinstance(request_locals[0], (list, tuple)) else [request_locals]
     req_sets = []
+    from ..flow import ALIAS
     for grp in groups:
-        par = g.reach([(anchor_body.id, i) for i in grp if i <= anchor_body.arg_count])
+        # data dependence only: every later statement is control dependent on every earlier early return, which says
+        # nothing about what *this* refusal looks at
+        par = g.reach([(anchor_body.id, i) for i in grp if i <= anchor_body.arg_count], kinds=(DATA, ALIAS))
         req_sets.append({st[0] for st in par})
     good_sites = []
     results = []
@@ -166,7 +169,17 @@ def check_row(rep, ctx, rule, key, anchor_body, ctx_adt, variants, request_local
             if g.last_goal is None:
                 continue
             live.append((bid, blk))
-            cs = carriers(g, n)
+            cs = set(carriers(g, n))
+            # what the refusal is conditioned on: the branches its block directly depends on, here and (for a
+            # refusal inside a helper or closure) at the calls leading to it
+            for (cb, cblks) in leads_to(g, (bid, blk)).items():
+                body = f.bodies[cb]
+                cd = body.control_deps()
+                for x in cblks:
+                    for c in cd.get(x, ()):
+                        t = body.blocks[c]["term"]
+                        if t["k"] in ("switch", "assert") and t["op"]["k"] in ("copy", "move"):
+                            cs.add((cb, t["op"]["pl"]["l"]))
             if all(cs & rs for rs in req_sets):
                 dep.append((bid, blk))
         ok = bool(dep)
